@@ -6,4 +6,5 @@ CONSTANTS
   Mn <- NoHint
   Mx <- Max14
   EmitAll = FALSE
+  FixedMode = FALSE
 CHECK_DEADLOCK FALSE
